@@ -28,6 +28,7 @@ CONSTANTS
   NL,             \* listeners 1..NL
   WRun, WTerm,    \* waiter ids calling AwaitRunning / AwaitTerminated (disjoint sets of naturals)
   QCap,           \* buffer of a listener channel (4 in the code)
+  MaxIters,       \* a timer service makes at most this many iterations
   MaxStart,       \* number of StartAsync calls
   ParentCancels,  \* BOOLEAN: may the parent context be cancelled
   Presents,       \* set of sets of non-nil functions, e.g. {{"start","run","stop"}}
@@ -148,7 +149,7 @@ RunFnReturn(s, e) == [s EXCEPT !.mpc = "toStop", !.mfrom = "Running", !.merr = e
 \* The run loop of a timer service.  Tick: the select takes <-t.C (if the context is done as well Go may take
 \* either case) and calls the iteration function.  IterReturn: nil -> back to the select; an error -> the
 \* running function returns it, even if the context has been cancelled in the meantime.
-MaxIters == 2
+
 TickEn(s) == s.mode = "timer" /\ s.mpc = "inRun" /\ s.tpc = "wait" /\ s.iters < MaxIters
 Tick(s) == [s EXCEPT !.iters = @ + 1, !.tpc = "iter"]
 IterReturnEn(s, e) == s.mode = "timer" /\ s.mpc = "inRun" /\ s.tpc = "iter" /\ e \in {"none", "erun"}
